@@ -2243,7 +2243,15 @@ isal_inflate(struct inflate_state *state)
                 struct isal_gzip_header gz_hdr;
 
                 isal_gzip_header_init(&gz_hdr);
+                /* The header may arrive in pieces over several calls.  The flag
+                 * byte and the running header crc of a partially parsed header
+                 * are kept in bfinal and crc, which are not used otherwise
+                 * before the first deflate block */
+                gz_hdr.flags = state->bfinal;
+                gz_hdr.hcrc = state->crc;
                 ret = isal_read_gzip_header(state, &gz_hdr);
+                state->bfinal = (ret == ISAL_END_INPUT) ? gz_hdr.flags : 0;
+                state->crc = (ret == ISAL_END_INPUT) ? gz_hdr.hcrc : 0;
                 if (ret < 0)
                         return ret;
                 else if (ret > 0)
